@@ -342,11 +342,13 @@ impl Accept {
     // Send connection to worker and handle error.
     fn send_connection(&mut self, conn: Conn) -> Result<(), Conn> {
         let next = self.next();
+        // Increment counter of WorkerHandle before the worker can see the connection:
+        // a worker decides whether it is idle (graceful stop) by looking at this counter.
+        let below_max = next.inc_counter();
         match next.send(conn) {
             Ok(_) => {
-                // Increment counter of WorkerHandle.
                 // Set worker to unavailable with it hit max (Return false).
-                if !next.inc_counter() {
+                if !below_max {
                     let idx = next.idx();
                     self.avail.set_available(idx, false);
                 }
